@@ -32,6 +32,7 @@ def run(ctx):
     ctx.guard(linkedset.check, ctx, 'C02-PARTNERS')
     ctx.guard(fresh_results, ctx)
     ctx.guard(new_order, ctx)
+    ctx.guard(rejections, ctx)
     from . import c10 as _c10
     ctx.shared(_c10.access, ctx)            # referential attributes are read through Class.__getattr__ / the declared cell
     from . import c09 as _c09
@@ -47,6 +48,53 @@ def run(ctx):
 
 
 # ---------------------------------------------------------------------------
+def rejections(ctx):
+    """the documented rejections (RelateException, UnrelateException, UnknownLinkException, DeleteException ...) can be built for whatever
+    arguments the rejected call was given: their constructors format the message with total conversions only"""
+    import re
+    repo = ctx.repo
+    r = ctx.rule('C02-REJECT', 'building a documented rejection cannot itself fail: the exception constructors format their arguments with %s / %r only',
+                 floor=3, oracle='property statement: a rejected call raises the documented exception (association numbers are given as R<n> or <n>)')
+    bases = repo.exception_bases()
+
+    def is_meta_exc(name):
+        seen, todo = set(), [name]
+        while todo:
+            n = todo.pop()
+            if n == 'MetaException':
+                return True
+            if n not in seen:
+                seen.add(n)
+                todo += list(bases.get(n, ()))
+        return False
+    for c in repo.classes('xtuml.meta'):
+        if not is_meta_exc(c.name):
+            continue
+        for m in c.body:
+            if not (isinstance(m, ast.FunctionDef) and m.name == '__init__'):
+                continue
+            params = set(a.arg for a in m.args.args[1:])
+            q = 'xtuml.meta:%s.__init__' % c.name
+            for n in ast.walk(m):
+                if not (isinstance(n, ast.BinOp) and isinstance(n.op, ast.Mod) and isinstance(n.left, ast.Constant) and isinstance(n.left.value, str)):
+                    continue
+                convs = [x for x in re.findall(r'%(?:\([^)]*\))?[-#0 +]*[0-9*]*(?:\.[0-9*]+)?([a-zA-Z%])', n.left.value) if x != '%']
+                args = n.right.elts if isinstance(n.right, ast.Tuple) else [n.right]
+                r.check(len(convs) == len(args) or not isinstance(n.right, ast.Tuple) and len(convs) == 1, '%s: %d conversions, %d arguments' % (q, len(convs), len(args)),
+                        n, construct=q, key='arity ' + n.left.value[:30],
+                        msg='%s: the message %r has %d conversions but %d arguments: raising the documented exception fails with TypeError'
+                            % (q, n.left.value, len(convs), len(args)))
+                for cnv, arg in zip(convs, args):
+                    names = set(x.id for x in ast.walk(arg) if isinstance(x, ast.Name))
+                    total = cnv in ('s', 'r', 'a')
+                    wrapped = isinstance(arg, ast.Call) and dotted(arg.func) in ('int', 'len', 'float')
+                    r.check(total or wrapped or not (names & params), '%s: `%s` is formatted with %%%s' % (q, src(arg), cnv), arg, construct=q,
+                            key='conversion ' + src(arg),
+                            msg='%s formats its argument `%s` with %%%s: the rejected call may have been given any spelling the API accepts (an association '
+                                'number as \'R1\' or as 1, a phrase, an instance), so building the documented %s raises an unrelated TypeError instead'
+                                % (q, src(arg), cnv, c.name))
+
+
 def linkops(ctx):
     repo = ctx.repo
     r = ctx.rule('C02-LINKOPS', 'abstract truth tables of Link.connect and Link.disconnect vs specification',
